@@ -779,6 +779,50 @@ pub fn check_c08(plan: &Plan, out: &RunOutput) -> Option<Violation> {
                     .tag(format!("end={}", end.kind)),
                 );
             }
+            // R6b: the caller whose request the loop was working on is told the failure itself
+            // (not a clean "connection closed"). The loop serves requests in the order they were
+            // first polled, so that request is the earliest-polled one still unanswered — provided
+            // the loop had demonstrably started on it: it wrote `noidle` or a request line after
+            // that request was polled. Not applied to garbage (parsed at an unknown later time),
+            // to a refused idle, to cancelled requests, or when an album_art call (several
+            // requests, queue position unknown) is pending.
+            if matches!(end.kind.as_str(), "cut" | "read_err" | "reset" | "write_err") {
+                let mut q: Vec<&&OpRecord> = ops
+                    .iter()
+                    .filter(|o| {
+                        o.invoke_seq < observed_seq
+                            && o.return_seq.map(|r| r > observed_seq).unwrap_or(true)
+                            && !reply_complete_early(out, o)
+                    })
+                    .collect();
+                q.sort_by_key(|o| o.invoke_seq);
+                let art_pending = q.iter().any(|o| o.kind == "album_art");
+                if let (Some(head), false) = (q.first(), art_pending) {
+                    let started = out.log.iter().any(|e| {
+                        e.seq > head.invoke_seq
+                            && e.seq < observed_seq
+                            && matches!(&e.ev, Ev::ClientLine(t) if t == "noidle" || t.starts_with("req ") || t.starts_with("command_list"))
+                    });
+                    if started
+                        && head.result != OpResult::Cancelled
+                        && !matches!(head.result, OpResult::ErrProtocol(_))
+                    {
+                        return Some(
+                            Violation::new(
+                                "C08",
+                                "R6_caller_in_flight_not_told_the_failure",
+                                format!(
+                                    "the connection ended uncleanly ({}) while the loop was working on {} (it had written noidle or the request after the request was issued), but that caller got {} instead of the protocol error",
+                                    end.kind,
+                                    describe_op(head),
+                                    head.result.summary()
+                                ),
+                            )
+                            .tag(format!("end={}", end.kind)),
+                        );
+                    }
+                }
+            }
             if !any_pending_unanswered && receiver_alive && !closed_event {
                 return Some(
                     Violation::new(
